@@ -4,6 +4,7 @@ package repository
 
 import (
 	"context"
+	"os"
 	"time"
 
 	"github.com/restic/restic/internal/restic"
@@ -34,6 +35,26 @@ func VerifC12IsRemovedLock(err error) bool                     { return err == e
 func VerifC12FakeLock(repo *Repository, t time.Time, pid int, host string, exclusive bool) (restic.ID, error) {
 	l := &Lock{Time: t, PID: pid, Hostname: host, Exclusive: exclusive}
 	return restic.SaveJSONUnpacked(context.TODO(), &internalRepository{repo}, restic.LockFile, l)
+}
+
+// VerifC12AgedLock puts a process into the situation refreshStaleLock exists for: it holds a lock
+// whose file (Time = now - age, this host, this PID) it could not refresh since. Only the set-up is
+// done here (the lock file is written directly); the forced refresh itself is the real code.
+func VerifC12AgedLock(repo *Repository, age time.Duration, exclusive bool) (*VerifC12Lock, error) {
+	ir := &internalRepository{repo}
+	h := &lockHandle{Lock: Lock{Time: time.Now().Add(-age), PID: os.Getpid(), Exclusive: exclusive}, repo: ir}
+	if hn, err := os.Hostname(); err == nil {
+		h.Hostname = hn
+	}
+	if err := h.fillUserInfo(); err != nil {
+		return nil, err
+	}
+	id, err := h.createLock(context.TODO())
+	if err != nil {
+		return nil, err
+	}
+	h.lockID = &id
+	return &VerifC12Lock{h: h}, nil
 }
 
 func VerifFactsC12() map[string]int64 {
